@@ -271,6 +271,45 @@ def worker(ns, items, res, opts):
         shutil.rmtree(tmp, ignore_errors=True)
 
 
+def sibling_pairs():
+    """Documents holding two different message elements, in both sibling orders (and with unknown
+    siblings around them): the property does not say which element decides, but the decision must not
+    depend on the order of the siblings."""
+    elems = {}
+    for cls, text in canonical_docs().items():
+        root = ET.fromstring(text)
+        e = [c for c in root if c.tag in TAG_CLASS][0]
+        elems.setdefault(e.tag, ET.tostring(e, encoding='unicode'))
+    elems['roElementAction'] = ET.tostring([c for c in ET.fromstring(canonical_docs()['EAStoryMove']) if c.tag == 'roElementAction'][0], encoding='unicode')
+    tags = list(elems)
+    head = '<mosID>m</mosID><messageID>5</messageID>'
+    for i, a in enumerate(tags):
+        for b in tags[i + 1:]:
+            yield (f'{a}+{b}', f'<mos>{head}{elems[a]}{elems[b]}</mos>', f'<mos>{head}{elems[b]}{elems[a]}</mos>')
+            yield (f'{a}+junk+{b}', f'<mos>{elems[a]}<foo/>{elems[b]}{head}</mos>', f'<mos>{elems[b]}<foo/>{head}{elems[a]}</mos>')
+
+
+def pair_worker(ns, items, res, opts):
+    prop = opts['prop']
+    for label, t1, t2 in items:
+        for wf in (None, 'error'):
+            v1 = _classify(ns, 'str', t1, None, wf)
+            v2 = _classify(ns, 'str', t2, None, wf)
+            res.transitions += 2
+            res.nontrivial += 2
+            res.by_outcome[v1.split(':')[0]] += 1
+            res.by_class['sibling-order'] += 1
+            res.extra['sibling_order_pairs'] += 1
+            ok = ref_classify(t1)
+            if v1 != v2:
+                explore.add_simple_finding(res, prop, 'sibling-order::verdict-depends-on-order',
+                                           f'two message elements {label}: classified {v1} in one sibling order and {v2} in the other',
+                                           document=t1, other_order=t2)
+            elif v1 not in ok:
+                explore.add_simple_finding(res, prop, f'sibling-order::got={v1.split(":")[1] if v1.startswith("BUILTIN") else v1}',
+                                           f'two message elements {label}: classified {v1}, reference allows {sorted(ok)}', document=t1)
+
+
 def vacuity(tot):
     probs = []
     seen = set(tot.by_outcome)
@@ -282,7 +321,8 @@ def vacuity(tot):
 
 def run(tier):
     docs = documents(tier)
-    parts = [{'label': 'documents', 'worker': worker, 'items': docs, 'chunk': 100}]
+    parts = [{'label': 'documents', 'worker': worker, 'items': docs, 'chunk': 100},
+             {'label': 'sibling-order-pairs', 'worker': pair_worker, 'items': list(sibling_pairs()), 'chunk': 40}]
     return runner.enum_check(
         'C08', tier, parts, rule=RULE, vacuity=vacuity,
         assumptions=['a document holding several different message elements may be classified as any of them',
